@@ -11,11 +11,18 @@ type PropSpec struct {
 }
 
 var propSpecs = map[string]*PropSpec{
+	"C43": {
+		Patterns:    []string{"./..."},
+		Level:       "proof",
+		Explanation: "tables.Authorized returns true only for the administrator short-cut, an unrestricted DSN, an unavailable permission store, or exactly one grant row for (dsn, table, user) that allows every requested operation; the row and table handlers reach their first row statement on a restricted DSN only for an administrator or after Authorized said yes for (this user, this DSN.table, the handler's operation)",
+		TrustedBase: []string{"the permission store returns exactly the rows matching the three equality filters (resources.ResHandle, C30)", "dsns service returns the DSN record"},
+	},
 	"C17": {
 		Patterns:    []string{"./..."},
 		Level:       "proof",
 		Explanation: "typestate contracts on database.Begin/Commit/Rollback/Close (transaction open <=> d.Transaction != nil; ghost counters of successful commits and rollbacks) and anchored assertions at every return of scripting.Handler: nothing left open, success reported only after a successful commit of all-successful operations, nothing committed on a reported failure",
 		TrustedBase: []string{"database/sql: Tx.Commit / Tx.Rollback end the transaction when they return nil; SQLite/Postgres atomicity of a committed or rolled-back transaction", "faults of Rollback itself are outside the property's quantifier (assumed to succeed at the handler's call sites)"},
+		Extra:       c17Extra,
 	},
 	"C20": {
 		Patterns:    []string{"./..."},
